@@ -1,6 +1,7 @@
 (* C05 — value leaves an account only with that account's authorization.  Theorems only.
-   (balances; the stake / order / candidate clauses are checked on the node by monitors) *)
+   (balances and candidate settings; the stake / order clauses are checked on the node by monitors) *)
 From Minter Require Import Base Ledger LedgerFacts LedgerTx LedgerProps LedgerExample.
+From Minter Require CandAuth CandAuthFacts.
 From Coq Require Import ZArith List.
 Import ListNotations.
 Open Scope Z_scope.
@@ -39,5 +40,27 @@ Example C05_example :
   get_bal (s_bal s1) 13 0 = 100000 + 250 /\ get_bal (s_bal s1) 11 0 = 100000.
 Proof. vm_compute. repeat split. Qed.
 
+
+(* candidate settings (owner, control and reward address, commission) change only by the owner recorded right
+   before the transaction; the on/off switch flips only by that owner or that control address; a sender who is
+   neither gets code 406 and nothing changes - along every history of the four candidate transactions, whatever
+   the outcome of their other checks *)
+Theorem C05_candidate_settings_by_owner_only : forall ops c, CandAuthFacts.steps_ok c ops.
+Proof. exact CandAuthFacts.history_ok. Qed.
+
+Theorem C05_candidate_unauthorized_rejected : forall c o ok,
+  CandAuth.authorized c o = false -> CandAuth.cstep c o ok = (c, CandAuth.cIsNotOwnerOfCandidate).
+Proof. exact CandAuthFacts.unauthorized_code. Qed.
+
+Example C05_candidate_example :
+  let c := {| CandAuth.ca_owner := 11; CandAuth.ca_control := 12; CandAuth.ca_reward := 11; CandAuth.ca_online := true; CandAuth.ca_commission := 10 |} in
+  (* the control address may switch the candidate off, but may not re-point the addresses or change the commission *)
+  snd (CandAuth.cstep c (CandAuth.COff 12) true) = 0 /\ CandAuth.ca_online (fst (CandAuth.cstep c (CandAuth.COff 12) true)) = false /\
+  CandAuth.cstep c (CandAuth.CEdit 12 12 12 12) true = (c, 406) /\ CandAuth.cstep c (CandAuth.CCommission 12 50) true = (c, 406) /\
+  CandAuth.ca_owner (fst (CandAuth.cstep c (CandAuth.CEdit 11 13 13 13) true)) = 13 /\ CandAuth.cstep c (CandAuth.COn 13) true = (c, 406).
+Proof. vm_compute. repeat split. Qed.
+
 Print Assumptions C05_debit_authorized.
 Print Assumptions C05_multisig_gate.
+Print Assumptions C05_candidate_settings_by_owner_only.
+Print Assumptions C05_candidate_unauthorized_rejected.
